@@ -3,150 +3,17 @@
 package props
 
 import (
-	"bytes"
 	"fmt"
-	"math/big"
 	"os"
 	"sort"
 	"strings"
 
 	secp256k1 "gitlab.com/yawning/secp256k1-voi"
-	"gitlab.com/yawning/secp256k1-voi/secec"
-	"gitlab.com/yawning/secp256k1-voi/secec/bitcoin"
 
-	"verifharness/gen"
-	"verifharness/hk"
 	"verifharness/mon"
-	"verifharness/oracle"
 )
 
 func init() { Register("C17", runC17) }
-
-type c17Secret struct {
-	v     *big.Int // in [1,n)
-	class string
-}
-
-// c17Secrets builds the secret set: nibble patterns, boundary values,
-// all four sign combinations of the split halves, both public-key
-// parities, random.
-func c17Secrets(seed int64, nRandom int) []c17Secret {
-	n := bigN
-	var out []c17Secret
-	add := func(v *big.Int, cl string) {
-		v = oracle.Mod(v, n)
-		if v.Sign() != 0 {
-			out = append(out, c17Secret{v, cl})
-		}
-	}
-	// 0 is a legitimate secret scalar for the arithmetic and multiplication entry
-	// points (not for private keys: operations that need a key skip it, see zeroOK)
-	out = append(out, c17Secret{new(big.Int), "0"})
-	add(big.NewInt(1), "1")
-	add(big.NewInt(2), "2")
-	add(big.NewInt(3), "3")
-	add(big.NewInt(16), "16")
-	add(new(big.Int).Sub(n, big.NewInt(1)), "n-1")
-	add(new(big.Int).Sub(n, big.NewInt(2)), "n-2")
-	add(oracle.HalfN, "halfN")
-	add(new(big.Int).Add(oracle.HalfN, big.NewInt(1)), "halfN+1")
-	for _, pat := range []byte{0x0f, 0xf0, 0x01, 0x10, 0x7f, 0x80, 0x55, 0xaa} {
-		add(oracle.FromBytes(bytes.Repeat([]byte{pat}, 32)), fmt.Sprintf("pattern-%02x", pat))
-	}
-	b := make([]byte, 32)
-	for i := 16; i < 32; i++ {
-		b[i] = 0xff
-	}
-	add(oracle.FromBytes(b), "00..ff..")
-	b = make([]byte, 32)
-	for i := 0; i < 16; i++ {
-		b[i] = 0xff
-	}
-	add(oracle.FromBytes(b), "ff..00..")
-	for _, pos := range []int{0, 1, 31, 32, 62, 63} {
-		add(new(big.Int).Lsh(big.NewInt(0xf), uint(4*pos)), fmt.Sprintf("single-nibble@%d", pos))
-		add(new(big.Int).Lsh(big.NewInt(1), uint(4*pos)), fmt.Sprintf("single-bit@%d", 4*pos))
-	}
-	add(oracle.Lambda, "lambda")
-	add(oracle.NegM(oracle.Lambda, n), "-lambda")
-	add(new(big.Int).Lsh(big.NewInt(1), 128), "2^128")
-	add(new(big.Int).Sub(new(big.Int).Lsh(big.NewInt(1), 128), big.NewInt(1)), "2^128-1")
-	rng := gen.New(seed, 0, "C17", "secrets")
-	// secrets inside the rare windows of the GLV decomposition (rounding bit, carry out of
-	// the low limb of the rounded quotient, extreme halves): a branch on such a carry runs
-	// for 2^-64 of all scalars
-	for i := 0; i < 8; i++ {
-		v, cl := glvSteered(gen.New(seed, i, "C17", "glv-secrets"))
-		add(v, "glv-window:"+cl)
-	}
-	// ... and, constructed and re-checked with integers: the rounded quotient k*g/2^384
-	// has an all-ones low limb AND the rounding bit set (the carry really propagates),
-	// for each lattice constant of either cube root of unity
-	glvSteered(rng) // initialises glvByLambda
-	mask64 := new(big.Int).SetUint64(^uint64(0))
-	for _, c := range glvByLambda {
-		for gi, g := range []*big.Int{c.g1, c.g2} {
-			for tries, found := 0, 0; tries < 64 && found < 2; tries++ {
-				q := rng.BigBits(60)
-				q.Lsh(q, 64).Or(q, mask64)
-				num := new(big.Int).Lsh(q, 1)
-				num.Add(num, big.NewInt(1)).Mul(num, two383)
-				k := new(big.Int).Div(num, g)
-				k.Add(k, big.NewInt(1))
-				t := new(big.Int).Mul(k, g)
-				lo := new(big.Int).And(new(big.Int).Rsh(t, 384), mask64)
-				if k.Cmp(n) < 0 && lo.Cmp(mask64) == 0 && t.Bit(383) == 1 {
-					add(k, fmt.Sprintf("glv-window:rounding-carry-out-of-low-limb(g%d)", gi+1))
-					found++
-				}
-			}
-		}
-	}
-	// split-half sign combinations and public-key parities (searched, classified by the library hook / oracle)
-	if hk.HaveMul {
-		want := map[string]int{"k1+,k2+": 0, "k1+,k2-": 0, "k1-,k2+": 0, "k1-,k2-": 0}
-		for tries := 0; tries < 400; tries++ {
-			v := rng.Below(n)
-			if v.Sign() == 0 {
-				continue
-			}
-			k1, k2 := hk.SplitGLV(scalarFromBig(v))
-			cl := "k1+"
-			if k1.IsGreaterThanHalfN() == 1 {
-				cl = "k1-"
-			}
-			if k2.IsGreaterThanHalfN() == 1 {
-				cl += ",k2-"
-			} else {
-				cl += ",k2+"
-			}
-			if want[cl] < 3 {
-				want[cl]++
-				add(v, "split:"+cl)
-			}
-		}
-	}
-	odd, even := 0, 0
-	for odd < 3 || even < 3 {
-		v := rng.Below(n)
-		if v.Sign() == 0 {
-			continue
-		}
-		if oracle.MulG(v).Y.Bit(0) == 1 {
-			if odd < 3 {
-				odd++
-				add(v, "public-y-odd")
-			}
-		} else if even < 3 {
-			even++
-			add(v, "public-y-even")
-		}
-	}
-	for i := 0; i < nRandom; i++ {
-		add(rng.Below(n), "random")
-	}
-	return out
-}
 
 type c17Snap struct {
 	counts   [][]uint32
@@ -221,23 +88,7 @@ func c17Vartime() string {
 	return ""
 }
 
-type c17Op struct {
-	// shape, when set, returns the SHAPE of the variable-length PUBLISHED output the
-	// operation produces for this secret (for a DER signature: the lengths and padding
-	// flags of r and s).  The property allows control flow to depend on published
-	// outputs, so traces are only required to agree among secrets whose published
-	// output has the same shape (a hand-written DER writer strips leading zeros and
-	// pads the high bit - of the signature, which is public).
-	shape  func(s c17Secret, variant int) string
-	zeroOK bool // the operation admits the secret scalar 0
-	name   string
-	// prep runs outside the traced region and returns the traced closure
-	prep func(s c17Secret, variant int) func()
-	vars int // number of public-configuration variants
-}
-
 func runC17(r *mon.Run) {
-	n := bigN
 	if len(secp256k1.VerifInstrFiles()) == 0 {
 		r.Inconclusive("instrumentation registry is empty")
 		return
@@ -251,222 +102,7 @@ func runC17(r *mon.Run) {
 	r.Extra("instrumented_files", len(secp256k1.VerifInstrFiles()))
 	r.Extra("instrumented_blocks", blocks)
 
-	pubPts := []*oracle.Pt{oracle.G(), oracle.MulG(big.NewInt(0x1234567)), oracle.MulG(oracle.HalfN)}
-	pubPoint := func(variant int) *Point {
-		z := []*big.Int{big.NewInt(1), big.NewInt(3), new(big.Int).Sub(bigP, big.NewInt(5))}[variant%3]
-		return pointRep(pubPts[variant%3], z)
-	}
-	pubScalar := scalarFromBig(mustHexBig("3b6c1f09a7e2d4c8b5a69788796a5b4c3d2e1f00112233445566778899aabbcc"))
-	pubFE := feFromBig(mustHexBig("1b6c1f09a7e2d4c8b5a69788796a5b4c3d2e1f00112233445566778899aabbcc"))
-	digest := bytes.Repeat([]byte{0x5a}, 32)
-	entropy := bytes.Repeat([]byte{0xc3}, 32)
-	peer := mustPub(oracle.MulG(big.NewInt(0xabcdef)))
-	msg := []byte("trace equivalence monitor message")
-
-	ops := []c17Op{
-		{zeroOK: true, name: "Scalar.arith", prep: func(s c17Secret, v int) func() {
-			a := scalarFromBig(s.v)
-			return func() {
-				t := secp256k1.NewScalar()
-				t.Add(a, pubScalar)
-				t.Subtract(a, pubScalar)
-				t.Multiply(a, pubScalar)
-				t.Square(a)
-				t.Negate(a)
-				t.Invert(a)
-				t.ConditionalNegate(a, 1)
-				t.ConditionalSelect(a, pubScalar, 0)
-				t.Sum(a, pubScalar, a)
-				t.Product(a, pubScalar, a)
-				_ = a.Equal(pubScalar)
-				_ = a.IsZero()
-				_ = a.IsGreaterThanHalfN()
-				_ = a.Bytes()
-				secp256k1.NewScalarFrom(a)
-			}
-		}, vars: 1},
-		{zeroOK: true, name: "Scalar.decode", prep: func(s c17Secret, v int) func() {
-			arr := arr32(s.v)
-			return func() {
-				_, _ = secp256k1.NewScalarFromCanonicalBytes(arr)
-				_, _ = secp256k1.NewScalarFromBytes(arr)
-			}
-		}, vars: 1},
-		{zeroOK: true, name: "field.arith", prep: func(s c17Secret, v int) func() {
-			a := feFromBig(oracle.Mod(s.v, bigP))
-			return func() {
-				t := hk.NewFE()
-				t.Add(a, pubFE)
-				t.Subtract(a, pubFE)
-				t.Multiply(a, pubFE)
-				t.Square(a)
-				t.Negate(a)
-				t.Invert(a)
-				t.Pow2k(a, 5)
-				t.Sqrt(a)
-				t.SqrtRatio(a, pubFE)
-				t.ConditionalNegate(a, 1)
-				t.ConditionalSelect(a, pubFE, 1)
-				_ = a.Equal(pubFE)
-				_ = a.IsZero()
-				_ = a.IsOdd()
-				_ = a.Bytes()
-			}
-		}, vars: 1},
-		{zeroOK: true, name: "field.decode", prep: func(s c17Secret, v int) func() {
-			arr := arr32(oracle.Mod(s.v, bigP))
-			wide := append(b32(s.v), b32(oracle.MulM(s.v, s.v, n))[:16]...)
-			return func() {
-				_, _ = hk.NewFEFromCanonicalBytes(arr)
-				hk.NewFE().SetBytes(arr)
-				hk.NewFE().SetWideBytes(wide)
-			}
-		}, vars: 1},
-		{zeroOK: true, name: "ScalarMult", prep: func(s c17Secret, v int) func() {
-			a, P := scalarFromBig(s.v), pubPoint(v)
-			return func() { new(Point).ScalarMult(a, P) }
-		}, vars: 3},
-		{zeroOK: true, name: "ScalarBaseMult", prep: func(s c17Secret, v int) func() {
-			a := scalarFromBig(s.v)
-			return func() { new(Point).ScalarBaseMult(a) }
-		}, vars: 1},
-		{zeroOK: true, name: "MultiScalarMult", prep: func(s c17Secret, v int) func() {
-			l := []int{2, 3, 8}[v%3]
-			if v >= 6 {
-				l = 1 // a batch of one is delegated to the single-scalar multiply
-			}
-			ss, ps := make([]*Scalar, l), make([]*Point, l)
-			for i := range ss {
-				ss[i] = scalarFromBig(oracle.Mod(new(big.Int).Add(oracle.MulM(s.v, big.NewInt(int64(2*i+1)), n), big.NewInt(int64(i))), n))
-				if v >= 3 {
-					// only entry (v-3)%l is the secret itself, the others are fixed non-zero scalars
-					if i == (v-3)%l {
-						ss[i] = scalarFromBig(s.v)
-					} else {
-						ss[i] = scalarFromBig(big.NewInt(int64(0x1234567 + i)))
-					}
-				}
-				ps[i] = pubPoint(i)
-			}
-			return func() { new(Point).MultiScalarMult(ss, ps) }
-		}, vars: 7},
-		{name: "Point.ops-on-secret-point", prep: func(s c17Secret, v int) func() {
-			Q := new(Point).ScalarBaseMult(scalarFromBig(s.v)) // secret non-identity point in a "natural" representative
-			P := pubPoint(v)
-			return func() {
-				t := new(Point)
-				t.Add(Q, P)
-				t.Subtract(P, Q)
-				t.Double(Q)
-				t.Negate(Q)
-				t.ConditionalNegate(Q, 1)
-				t.ConditionalSelect(Q, P, 0)
-				t.Set(Q)
-				_ = Q.Equal(P)
-				_ = Q.IsIdentity()
-				_ = Q.IsYOdd()
-				_ = Q.CompressedBytes()
-				_ = Q.UncompressedBytes()
-				_, _ = Q.XBytes()
-			}
-		}, vars: 2},
-		{name: "NewPrivateKey", prep: func(s c17Secret, v int) func() {
-			bts := b32(s.v)
-			return func() {
-				k, _ := secec.NewPrivateKey(bts)
-				_ = k.Bytes()
-				_ = k.Scalar()
-				_ = k.PublicKey()
-			}
-		}, vars: 1},
-		// process state: a fixed key K0 was imported just before.  K0 is itself one of the
-		// secrets, so a fast path / cache keyed on "same secret as last time" takes a different
-		// path for exactly that secret (a branch on secret equality).
-		{name: "NewPrivateKey/after-importing-K0", prep: func(s c17Secret, v int) func() {
-			k0 := b32(mustHexBig("5555555555555555555555555555555555555555555555555555555555555555"))
-			bts := b32(s.v)
-			return func() {
-				switch v {
-				case 0:
-					_, _ = secec.NewPrivateKey(k0)
-					k, _ := secec.NewPrivateKey(bts)
-					_ = k.PublicKey()
-				case 1:
-					_, _ = secec.NewPrivateKey(k0)
-					_, _ = bitcoin.NewSchnorrPrivateKey(bts)
-				default:
-					_, _ = bitcoin.NewSchnorrPrivateKey(k0)
-					k, _ := secec.NewPrivateKeyFromScalar(scalarFromBig(s.v))
-					_ = k.PublicKey()
-				}
-			}
-		}, vars: 3},
-		{name: "NewPrivateKeyFromScalar", prep: func(s c17Secret, v int) func() {
-			a := scalarFromBig(s.v)
-			return func() { _, _ = secec.NewPrivateKeyFromScalar(a) }
-		}, vars: 1},
-		{name: "ECDH", prep: func(s c17Secret, v int) func() {
-			k := mustPriv(s.v)
-			return func() { _, _ = k.ECDH(peer) }
-		}, vars: 1},
-		{name: "SignRaw/hedged", prep: func(s c17Secret, v int) func() {
-			k := mustPriv(s.v)
-			return func() { _, _, _, _ = k.SignRaw(&fixedReader{data: entropy}, digest) }
-		}, vars: 1},
-		{name: "SignRaw/rfc6979", prep: func(s c17Secret, v int) func() {
-			k := mustPriv(s.v)
-			return func() { _, _, _, _ = k.SignRaw(secec.RFC6979SHA256(), digest) }
-		}, vars: 1},
-		{name: "Sign/encodings+selfverify", prep: func(s c17Secret, v int) func() {
-			k := mustPriv(s.v)
-			opts := &secec.ECDSAOptions{Encoding: secec.SignatureEncoding(v % 3), SelfVerify: v >= 3}
-			return func() { _, _ = k.Sign(&fixedReader{data: entropy}, digest, opts) }
-		}, vars: 6, shape: func(s c17Secret, v int) string {
-			if secec.SignatureEncoding(v%3) != secec.EncodingASN1 {
-				return "" // fixed-length encodings
-			}
-			sig, err := mustPriv(s.v).Sign(&fixedReader{data: entropy}, digest, &secec.ECDSAOptions{Encoding: secec.EncodingASN1})
-			if err != nil || len(sig) < 8 {
-				return "error"
-			}
-			rl := int(sig[3])
-			if 4+rl+2 > len(sig) {
-				return "odd"
-			}
-			sl := int(sig[4+rl+1])
-			return fmt.Sprintf("der:len=%d,r=%d/pad=%v,s=%d/pad=%v", len(sig), rl, sig[4] == 0, sl, sig[4+rl+2] == 0)
-		}},
-		// the per-signature nonce is a secret too: fixed key and digest, the 32 entropy
-		// bytes (hence the nonce, R and s) range over the secret set
-		{zeroOK: true, name: "SignRaw/secret-entropy(nonce varies)", prep: func(s c17Secret, v int) func() {
-			k := mustPriv(mustHexBig("00c9afa9d845ba75166b5c215767b1d6934e50c3db36e89b127b8a622b120f67"))
-			ent := b32(s.v)
-			return func() { _, _, _, _ = k.SignRaw(&fixedReader{data: ent}, digest) }
-		}, vars: 1},
-		{zeroOK: true, name: "Schnorr.Sign/secret-aux(nonce varies)", prep: func(s c17Secret, v int) func() {
-			k, _ := bitcoin.NewSchnorrPrivateKey(b32(mustHexBig("00c9afa9d845ba75166b5c215767b1d6934e50c3db36e89b127b8a622b120f67")))
-			aux := b32(s.v)
-			return func() { _, _ = k.Sign(&fixedReader{data: aux}, msg, nil) }
-		}, vars: 1},
-		{name: "NewSchnorrPrivateKey", prep: func(s c17Secret, v int) func() {
-			bts := b32(s.v)
-			return func() { _, _ = bitcoin.NewSchnorrPrivateKey(bts) }
-		}, vars: 1},
-		{name: "NewSchnorrPrivateKeyFromECDSA", prep: func(s c17Secret, v int) func() {
-			k := mustPriv(s.v)
-			return func() { bitcoin.NewSchnorrPrivateKeyFromECDSA(k) }
-		}, vars: 1},
-		{name: "Schnorr.Sign", prep: func(s c17Secret, v int) func() {
-			k, _ := bitcoin.NewSchnorrPrivateKey(b32(s.v))
-			return func() { _, _ = k.Sign(&fixedReader{data: entropy}, msg, nil) }
-		}, vars: 1},
-	}
-	if hk.HaveSecec {
-		ops = append(ops, c17Op{name: "sampleRandomScalar(in-range stream)", prep: func(s c17Secret, v int) func() {
-			stream := b32(s.v)
-			return func() { _, _ = hk.SampleRandomScalar(&fixedReader{data: stream}) }
-		}, vars: 1})
-	}
+	ops := c17Ops()
 	for _, o := range ops {
 		r.Require("c17:op:" + o.name)
 	}
@@ -567,12 +203,4 @@ func runC17(r *mon.Run) {
 	}
 	sort.Strings(names)
 	_ = os.Getenv
-}
-
-func mustHexBig(s string) *big.Int {
-	v, ok := new(big.Int).SetString(s, 16)
-	if !ok {
-		panic("bad hex")
-	}
-	return v
 }
